@@ -234,16 +234,21 @@ package protobuf
 //@ func verifPBSignedStateSigs
 //@   requires x != nil && x.State != nil && x.State.App != nil && x.State.Data != nil && nonNilAssets(x.State.Assets)
 //@   requires x.Params != nil && x.Params.Nonce != nil && val(x.Params.Nonce) >= 0 && x.Params.App != nil
+//@   requires validAlloc(x.State.Allocation) && nonNilBalances(x.State.Balances) && nonNilLocked(x.State.Locked) && len(x.State.Backends) == len(x.State.Assets) && streaming()
+//@   requires (!isNoApp(x.State.App) ==> marshalLen(appDef(x.State.App)) > 0) && (!isNoApp(x.Params.App) ==> marshalLen(appDef(x.Params.App)) > 0)
 //@   requires forall i int :: 0 <= i && i < len(x.State.Backends) ==> 0 <= x.State.Backends[i] && x.State.Backends[i] <= 4294967295
 //@   modifies *
 //@   inlines FromSignedState, ToSignedState
 //@   ensures fromErr == nil && toErr == nil ==> len(y.Sigs) == len(x.Sigs) && forall k int :: 0 <= k && k < len(x.Sigs) ==> pbSigSame(y.Sigs[k], x.Sigs[k])
+//@   ensures fromErr == nil && toErr == nil ==> y.State != nil && pbStateEq(y.State, x.State)
+//@   ensures fromErr == nil && toErr == nil ==> y.Params != nil && y.Params.ChallengeDuration == x.Params.ChallengeDuration && y.Params.LedgerChannel == x.Params.LedgerChannel &&
+//@     y.Params.VirtualChannel == x.Params.VirtualChannel && y.Params.Nonce != nil && val(y.Params.Nonce) == val(x.Params.Nonce) && len(y.Params.Parts) == len(x.Params.Parts) && y.Params.Aux == x.Params.Aux
 //@   loop FromSignedState.1
 //@     modifies fresh
 //@     invariant protoSignedState != nil && fresh(protoSignedState) && len(protoSignedState.Sigs) == len(signedState.Sigs) && fresh(arr(protoSignedState.Sigs)) && off(protoSignedState.Sigs) == 0
 //@     invariant forall k int :: 0 <= k && k < $i ==> fresh(arr(protoSignedState.Sigs[k])) && len(protoSignedState.Sigs[k]) == len(signedState.Sigs[k]) && forall j int :: 0 <= j && j < len(signedState.Sigs[k]) ==> protoSignedState.Sigs[k][j] == signedState.Sigs[k][j]
 //@   loop ToSignedState.1
-//@     modifies fresh
+//@     modifies signedState.Sigs[*]
 //@     invariant len(signedState.Sigs) == len(x.Sigs) && fresh(arr(signedState.Sigs)) && off(signedState.Sigs) == 0 && protoSignedState != nil && len(protoSignedState.Sigs) == len(x.Sigs)
 //@     invariant forall k int :: 0 <= k && k < len(x.Sigs) ==> len(protoSignedState.Sigs[k]) == len(x.Sigs[k]) && forall j int :: 0 <= j && j < len(x.Sigs[k]) ==> protoSignedState.Sigs[k][j] == x.Sigs[k][j]
 //@     invariant forall k int :: 0 <= k && k < $i ==> pbSigSame(signedState.Sigs[k], x.Sigs[k])
